@@ -1,4 +1,5 @@
 import MuscleModel.Engines.Filter
+import MuscleModel.Engines.Gateway
 import MuscleModel.Engines.Hashtable
 import MuscleModel.Engines.Msg
 import MuscleModel.Engines.Parse
@@ -23,6 +24,7 @@ partial def loop (h : IO.FS.Stream) (out : IO.FS.Stream) (e : Engine) (s : e.σ)
 
 def engines : List (String × Engine) := [
   ("qf", FilterEngine.engine),
+  ("gw", GwEngine.engine),
   ("ht", HtEngine.engine),
   ("msg", MsgEngine.engine),
   ("parse", ParseEngine.engine),
